@@ -98,7 +98,7 @@ def _rule_names_of(name):
     rn = nm.get(name)
     if rn is None or rn not in ruleinfo.table():
         return []
-    return list(ruleinfo.automata(rn).names)
+    return ruleinfo.names_of(rn)
 
 
 def _attr_spec_of(name):
